@@ -62,6 +62,9 @@ def lit(v, ty, recs):
         return "(" + ", ".join(lit(x, t, recs) for x, t in zip(v, ty[1:])) + ")"
     if ty[0] == "O":
         return "none" if v is None else f"(some {lit(v, ty[1], recs)})"
+    if ty[0] == "R" and recs[ty[1]].extern:
+        r = recs[ty[1]]
+        return r.literal.format(**{f: lit(v[f], t, recs) for f, t in r.fields.items()})
     if ty[0] == "R":
         r = recs[ty[1]]
         return "({ " + ", ".join(f"{f} := {lit(v[f], t, recs)}" for f, t in r.fields.items()) + f" }} : {r.name})"
@@ -204,8 +207,75 @@ def _legacy_cases():
             "_Grid.get_neighborhood": (gen_nb, call_nb)}
 
 
+# ------------------------------------------------------------------ C14: eventlist.py
+def _noop():
+    pass
+
+
+def _devs_cases():
+    core.import_mesa()
+    import heapq
+    from mesa.experimental.devs.eventlist import EventList, SimulationEvent
+
+    def ev(rng, uid):
+        return {"time": rng.choice([0, 1, 1, 2, 3, 5, 8]) * 512, "priority": rng.choice([1, 5, 5, 10]), "unique_id": uid,
+                "_canceled": rng.random() < 0.35}
+
+    def real(d):
+        e = SimulationEvent(0, _noop)
+        e.time, e.priority, e.unique_id, e._canceled = d["time"], d["priority"], d["unique_id"], d["_canceled"]
+        return e
+
+    def back(e):
+        return {"time": e.time, "priority": e.priority, "unique_id": e.unique_id, "_canceled": e._canceled}
+
+    def events(rng):
+        n = rng.choice([0, 0, 1, 2, 3, 5, 8, 13])
+        ids = rng.sample(range(40), n + 1)
+        evs = [ev(rng, i) for i in ids[:n]]
+        if rng.random() < 0.8:      # a heap, as EventList keeps it
+            h = []
+            for d in evs:
+                heapq.heappush(h, real(d))
+            evs = [back(e) for e in h]
+        return evs, ev(rng, ids[n])
+
+    def elist(a):
+        el = EventList()
+        el._events = [real(d) for d in a["self"]["_events"]]
+        return el
+
+    def gen_el(rng):
+        evs, new = events(rng)
+        return {"self": {"_events": evs}, "event": new, "fuel": len(evs) + 1}
+
+    def gen_pair(rng):
+        a, b = ev(rng, rng.randrange(3)), ev(rng, rng.randrange(3))
+        if rng.random() < 0.3:
+            b = dict(a, unique_id=b["unique_id"])
+        return {"self": a, "other": b}
+
+    def call_add(a):
+        el = elist(a)
+        el.add_event(real(a["event"]))
+        return [back(e) for e in el._events]
+
+    def call_pop(a):
+        el = elist(a)
+        try:
+            r = back(el.pop_event())
+        except Exception as e:       # noqa: BLE001
+            r = map_exc(e)
+        return (r, [back(e) for e in el._events])
+
+    return {"SimulationEvent.CANCELED": (lambda rng: {"self": ev(rng, 0)}, lambda a: real(a["self"]).CANCELED),
+            "SimulationEvent.__lt__": (gen_pair, lambda a: real(a["self"]) < real(a["other"])),
+            "EventList.add_event": (gen_el, call_add), "EventList.pop_event": (gen_el, call_pop),
+            "EventList.__len__": (gen_el, lambda a: len(elist(a))), "EventList.is_empty": (gen_el, lambda a: elist(a).is_empty())}
+
+
 RECS = {r.name: r for g in XR.GROUPS.values() for r in g["recs"]}
-SUITES = {"Cells": _grid_cases, "Legacy": _legacy_cases}
+SUITES = {"Cells": _grid_cases, "Legacy": _legacy_cases, "Devs": _devs_cases}
 
 
 # ------------------------------------------------------------------ runner
@@ -235,7 +305,7 @@ def run(ctx, prop):
                 except Exception as e:       # noqa: BLE001 — mapped to the small error enum, like the translation
                     want = map_exc(e)
                 args = ([lit(a["self"], ("R", fn.self_rec), recs)] if fn.self_rec else []) + \
-                       [lit(a[p], t, recs) for p, t in _ordered_params(node, fn)]
+                       [lit(a[p], t, recs) for p, t in _ordered_params(node, fn)] + ([str(a["fuel"])] if fn.fuel else [])
                 jobs.append((fn, a, show(want, rty), f"#eval IO.println (Py.Show.show_ ({fn.name} {' '.join(args)}))"))
         if not jobs:
             continue
